@@ -26,6 +26,7 @@ var c17ResetReasons = []string{"StreamConnectionTermination", "StreamConnectionF
 //	retry_on=false                       only for StreamConnectionFailed
 //	retry_on=true, no status readable    only for ConnectionFailed, PerTryTimeout, ConnectionTermination
 //	retry_on=true, status readable       possible (decided by the status code / the configured list)
+//
 // retryTable evaluates doRetryCheck for every (reason, retry_on, status readable) combination: can it answer true?
 func retryTable(c *Ctx, pp string) (tab map[string]bool, fn *ssa.Function, ok bool) {
 	fn = c.M(pp, "retryState", "doRetryCheck")
